@@ -90,7 +90,7 @@ package types
 // difficulty of its turn
 // verif:func verifySeal
 //@ modifies store
-//@ loop 1 invariant forall n uint64 :: visited(n) ==> !(snap.Recents[n] == signer && n > number - uint64(len(snap.Validators)/2+1))
+//@ loop 1 invariant forall n uint64 :: visited(n) ==> !(callres("snapshot", 0).Recents[n] == callres("ecrecover", 0) && n > header.Height.RevisionHeight - uint64(len(callres("snapshot", 0).Validators)/2+1))
 //@ callsite ecrecover [this-header-this-chain] dollar_header == header && *chainId == sint(int64(clientState.ChainId))
 //@ callsite snapshot [of-this-client] m == *clientState && dollar_store == store
 //@ callsite SetSigner [records-this-seal] dollar_signer.Height == header.Height && dollar_signer.Validator == callres("ecrecover", 0).Bytes() && dollar_store == store
@@ -104,7 +104,13 @@ package types
 // verif:func (ClientState).snapshot
 //@ ensures [number] result1 == nil ==> result0.Number == m.Header.Height.RevisionHeight
 //@ loop 1 invariant forall a common.Address :: mapHas(snap.Validators, a) ==> exists j int :: 0 <= j && j < idx1 && a == common.BytesToAddress(m.Validators[j])
+//@ loop 2 invariant forall j int :: 0 <= j && j < idx2 ==> mapHas(snap.Recents, recentSingers[j].Height.RevisionHeight)
+//@ ensures [every-stored-recent-signer-is-considered] result1 == nil ==> ncalls("GetRecentSigners") == 1 && forall j int :: 0 <= j && j < len(callres("GetRecentSigners", 0)) ==> mapHas(result0.Recents, callres("GetRecentSigners", 0)[j].Height.RevisionHeight)
 //@ ensures [only-the-client-validators] result1 == nil ==> forall a common.Address :: mapHas(result0.Validators, a) ==> exists j int :: 0 <= j && j < len(m.Validators) && a == common.BytesToAddress(m.Validators[j])
+
+// the stored recent-signer records (read-only)
+// verif:func GetRecentSigners
+//@ ensures [read-only] store == old(store)
 
 // recent-signer records: one entry per sealed height
 // verif:func SetSigner
